@@ -157,6 +157,8 @@ class FusionART(BaseART):
                 ]
             else:
                 self.modules[k].W = []
+                self.modules[k].weight_sample_counter_ = []
+                self.modules[k].sample_counter_ = 0
 
     @staticmethod
     def validate_params(params: Dict):
